@@ -926,7 +926,8 @@ impl<'a> Sim<'a> {
         }
         ts += 10;
         // random walk with forks
-        let steps = self.t.range(8, 24);
+        // one room in three has a long history: deeper chains of power-levels events, longer forks
+        let steps = if self.t.chance(1, 3) { self.t.range(24, 48) } else { self.t.range(8, 24) };
         for _ in 0..steps {
             let nprev = if self.t.chance(1, 4) { 2 } else { 1 };
             let window = evs.len().min(10);
